@@ -614,6 +614,8 @@ class CallSites:
                         forwarded = (isinstance(x, tuple) and x[0] == "arg" and not f.internal and
                                      not [b for b in self.H.get(f.name, []) if b.get("param") == x[1] and b.get("entry", True)])
                         pts = self.pts_for(f, pa, e, x)
+                        # forwarding is only possible where the client could still satisfy the precondition on this path
+                        forwarded = forwarded and bool(pts & want)
                         ok = direct or forwarded or pts <= want
                         key = (f.name, e.ins.id, ai)
                         if key in seen and (seen[key][3] is False or ok):
